@@ -287,31 +287,48 @@ def run(facts, tr, rep):
     for (pb, pc) in emit_bodies:
         rep.saw(pb)
         pg = graph(pb)
-        # after catch_unwind returns, every path to `return` passes the iterator's `next` again,
-        # or the iterator is exhausted: i.e. no return is reachable without passing a `next` call
         nexts = [c.bb for c in pg.calls() if c.name == "next" and c.trait == "core::iter::traits::iterator::Iterator"]
-        start = pc.target
-        r = pg.reach([start], kinds=(N,), avoid_nodes=nexts)
-        rets = [x for x in r if pg.term(x)["k"] == "return"]
-        # diverging calls (resume_unwind, panic!, process::abort ...) and explicit unwinding are exits too
-        div = []
-        for x in r:
-            t = pg.term(x)
-            if t["k"] == "call" and t["target"] is None:
-                div.append(x)
-            if t["k"] == "call":
-                cx = Call(pg, x, t)
-                if cx.name in ("resume_unwind", "panic_any", "panic_fmt", "begin_panic", "abort", "exit"):
+        loops = [(pb, pg, pc.target, nexts, pc)]
+        if not nexts:
+            # the guarded notification lives in a helper: the listener loop is in its caller(s); the helper itself must
+            # return normally after catch_unwind
+            r0 = pg.reach([pc.target], kinds=(N,))
+            div0 = [x for x in r0 if pg.term(x)["k"] == "call" and (pg.term(x)["target"] is None or Call(pg, x, pg.term(x)).name in ("resume_unwind", "panic_any", "abort", "exit"))]
+            rep.ob("C20.LISTEN-LOOP", site_key(pb, "guarded-helper"), not div0, pc.where(),
+                   "the helper that guards one listener returns normally whether or not the listener panicked" if not div0 else
+                   "the helper that guards one listener can diverge after catch_unwind (%s)" % pg.where(div0[0]))
+            loops = []
+            for cs in tr.callers(pb.def_):
+                cb_ = cs.g.b
+                cg_ = cs.g
+                nx = [c.bb for c in cg_.calls() if c.name == "next" and c.trait == "core::iter::traits::iterator::Iterator"]
+                loops.append((cb_, cg_, cs.target, nx, cs))
+        for (lb, lg, start, nexts, at) in loops:
+            rep.saw(lb)
+            r = lg.reach([start], kinds=(N,), avoid_nodes=nexts)
+            rets = [x for x in r if lg.term(x)["k"] == "return"]
+            div = []
+            for x in r:
+                t = lg.term(x)
+                if t["k"] == "call" and t["target"] is None:
                     div.append(x)
-        bad = rets + div
-        rep.ob("C20.LISTEN-LOOP", site_key(pb, "emit-loop"), bool(nexts) and not bad, pc.where(),
-               "after a listener returns or panics the loop proceeds to the next listener (no return, re-raised panic or other "
-               "exit is reachable from the catch_unwind result without asking the iterator again)" if (nexts and not bad)
-               else "an exit (%s at %s) is reachable after catch_unwind without visiting the remaining listeners: a listener's panic "
-               "can escape or cut the notification short" % ("return" if rets else "diverging call / re-raised panic", pg.where(bad[0]) if bad else "-"))
-        # emit returns unit
-        rt = pb.local_ty(0)["s"]
-        rep.ob("C20.LISTEN-UNIT", site_key(pb, "emit-ret"), rt == "()", pc.where(), "emit returns %s" % rt)
+                if t["k"] == "call":
+                    cx = Call(lg, x, t)
+                    if cx.name in ("resume_unwind", "panic_any", "panic_fmt", "begin_panic", "abort", "exit"):
+                        div.append(x)
+            bad = rets + div
+            rep.ob("C20.LISTEN-LOOP", site_key(lb, "emit-loop"), bool(nexts) and not bad, at.where(),
+                   "after a listener returns or panics the loop proceeds to the next listener (no return, re-raised panic or other "
+                   "exit is reachable from the catch_unwind result without asking the iterator again)" if (nexts and not bad)
+                   else "an exit (%s at %s) is reachable after catch_unwind without visiting the remaining listeners: a listener's panic "
+                   "can escape or cut the notification short" % ("return" if rets else "diverging call / re-raised panic", lg.where(bad[0]) if bad else "-"))
+    # emit (public anchor) returns unit
+    emit = [b for b in facts.crates["tower_resilience_core"].bodies if b.name == "emit" and b.def_.startswith("tower_resilience_core::events::EventListeners")]
+    if not emit:
+        rep.anchor_missing("tower_resilience_core::events::EventListeners::emit")
+    for eb in emit:
+        rt = eb.local_ty(0)["s"]
+        rep.ob("C20.LISTEN-UNIT", site_key(eb, "emit-ret"), rt == "()", "%s:%d" % (eb.span["file"], eb.span["line"]), "emit returns %s" % rt)
     # listener list is private
     adt = facts.adt("tower_resilience_core::events::EventListeners")
     if adt is None:
